@@ -69,6 +69,7 @@ type fileCtx struct {
 	entryExported bool
 	seq           int
 	usedXMaps     map[string]string // local import name -> a symbol to keep it referenced
+	keepAlive map[string]bool // plain "pkg.Symbol" references that keep imports used
 }
 
 func (fc *fileCtx) off(p token.Pos) int { return fc.tokFile.Offset(p) }
@@ -194,6 +195,16 @@ func (fc *fileCtx) passMNode(n ast.Node, depth int, fn string) {
 						fc.replace(sel.Pos(), sel.End(), simName+".RangeExtensions")
 						fc.insert(n.Rparen, ", "+q(site), 90-depth)
 						record("range_extensions", site, fn)
+					}
+					return
+				case path == "time":
+					switch name {
+					case "Now", "Since", "Until", "Sleep":
+						fc.replace(sel.Pos(), sel.End(), simName+"."+name)
+						fc.keepAlive[id.Name+".Now"] = true
+						record("clock_"+strings.ToLower(name), site, fn)
+					case "After", "Tick", "NewTimer", "AfterFunc", "NewTicker":
+						rep.Unmodelled = append(rep.Unmodelled, siteRec{Kind: "time." + name, Site: site, Func: fn})
 					}
 					return
 				case path == "reflect":
@@ -656,6 +667,9 @@ func (fc *fileCtx) apply() []byte {
 	for name, sym := range fc.usedXMaps {
 		keep = append(keep, fmt.Sprintf("\nvar _ = %s.%s[map[string]struct{}]\n", name, sym))
 	}
+	for ref := range fc.keepAlive {
+		keep = append(keep, fmt.Sprintf("\nvar _ = %s\n", ref))
+	}
 	sort.Strings(keep)
 	fc.edits = append(fc.edits, edit{len(fc.src), len(fc.src), strings.Join(keep, ""), 0})
 	fc.edits = append(fc.edits, edit{fc.off(fc.file.Name.End()), fc.off(fc.file.Name.End()), imp, 0})
@@ -789,6 +803,7 @@ func main() {
 				everyStmt: match(everyFiles, rel), fieldAssign: match(fieldAssignPkgs, relDir),
 				entryAll: match(entryAllFiles, rel), entryExported: match(entryExportedPkgs, relDir),
 				usedXMaps: map[string]string{},
+				keepAlive: map[string]bool{},
 			}
 			entryRecv = recvByDir[relDir]
 			fc.process()
